@@ -3,7 +3,7 @@
 from .. import core, tree
 
 MOD = "mc.props.c05"
-KINDS = ("node", "user", "light", "anynode", "weird", "eqhash", "falsy", "falsylight")
+KINDS = ("node", "user", "light", "anynode", "weird", "eqhash", "falsy", "falsylight", "container")
 
 
 def iterators():
@@ -164,7 +164,7 @@ def run(tier):
         "traces_validated_against_impl": t.c["evaluations"],
         "evaluations": t.c["evaluations"],
         "distinct_nontrivial": t.c["nontrivial"],
-        "rule": "all ordered trees with 1..%d nodes (%d shapes) x 8 node classes (plain ones and adversarial __eq__/__hash__/__bool__/__len__ ones); exhausted / interleaved iterator objects x 2 build orders x every start node x "
+        "rule": "all ordered trees with 1..%d nodes (%d shapes) x 9 node classes (plain ones and adversarial __eq__/__hash__/__bool__/__len__ ones); exhausted / interleaved iterator objects x 2 build orders x every start node x "
                 "5 iterators against orders computed from the definitions on an index model; state = (tree, start), "
                 "transition = one complete iteration; non-trivial = subtree with more than one node" % (nmax, len(shapes)),
         "bounds": {"max_nodes": nmax, "shapes": len(shapes), "assertions_on_upto": min(nmax, 6)},
